@@ -891,8 +891,8 @@ func gen(g *core.G) {
 		for _, e := range elems {
 			if p := join(e, sz); p != "" {
 				emitText("Array["+p+"]", true)
-				emitText("Tuple["+p+"]", false)
-				emitText("Tuple["+join(e, e, sz)+"]", false)
+				emitText("Tuple["+p+"]", !strings.Contains(sz, "Integer["))
+				emitText("Tuple["+join(e, e, sz)+"]", !strings.Contains(sz, "Integer["))
 				emitText("Optional[Array["+p+"]]", true)
 			}
 			for _, v := range elems {
